@@ -106,7 +106,7 @@ func robustOne(rc *RunCtx) *Violation {
 		return &Violation{Signature: "parse/" + w.name + "/build-panic", Detail: pn}
 	}
 	rc.agg.Worlds[w.name]++
-	x, dc := drawDoc(w, delims, 40, true)
+	x, dc := drawDoc(w, delims, bound(40, 400), true)
 	d := x
 	var fired []string
 	if subBatch != "faultfree" && !w.verbatim {
@@ -337,7 +337,7 @@ func robustDepth(rc *RunCtx) *Violation {
 	}
 	sizes := []int{8, 32, 128}
 	if rc.agg != nil && simrt.Choose(8) == 1 {
-		sizes = append(sizes, 512)
+		sizes = append(sizes, bound(512, 2048))
 	}
 	if len(nested) > 0 && simrt.Choose(2) == 1 {
 		dc := nested[simrt.Choose(len(nested))]
